@@ -762,10 +762,8 @@ func SilentStall(d *fw.Driver, res *fw.Result, seed int64) error {
 		if big != nil {
 			bound += 2 * time.Second // marshalling and buffering 48 MiB takes a moment
 			select {
-			case err := <-big:
-				if err == nil {
-					res.Add(fw.Finding{Kind: "monitor", Signature: sig + " big call succeeded", Detail: "a 48 MiB call issued on a silent link returned a result", Case: c})
-				}
+			case <-big:
+				// (an error, or — if the client had healed before the request was taken — a genuine result)
 			case <-time.After(bound):
 				res.Add(fw.Finding{Kind: "monitor", Signature: sig + " call being written never returns", Detail: fmt.Sprintf("a call whose 48 MiB request was being written when the peer had fallen silent had not returned %v later (timeout %v): nothing closes the connection while the connection loop is inside the write", bound, T), Case: c})
 			}
